@@ -18,8 +18,8 @@ FUNCTIONS = [('hio.base.during', n) for n in ('Duror.suffix', 'Duror.unsuffix', 
                                               'Duror.remIoSetVal', 'Suber.put', 'Suber.pin', 'Suber.get', 'Suber.rem', 'IoSuber.add', 'IoSuber.put', 'IoSuber.pin', 'IoSuber.pop',
                                               'IoSuber.rem', 'IoSuber.get', 'IoSuber.cnt', 'IoSetSuber.add', 'IoSetSuber.put', 'IoSetSuber.pin', 'IoSetSuber.pop', 'IoSetSuber.rem',
                                               'IoSetSuber.get', 'IoSetSuber.cnt', 'SuberBase._tokey', 'SuberBase.getItemIter')]
-BOUNDS = {'quick': dict(nops=3, budget_s=200, audit_max=4), 'thorough': dict(nops=4, budget_s=2400, audit_max=12)}
-OUTSIDE = ['more operations per sequence than the bound', 'more than two keys plus a bystander per sequence', 'values other than the three short strings',
+BOUNDS = {'quick': dict(nops=3, budget_s=200, audit_max=4), 'thorough': dict(nops=3, free_first=True, budget_s=2400, audit_max=12)}      # the first operation's key and value are free as well
+OUTSIDE = ['more than three operations per sequence', 'more than two keys plus a bystander per sequence', 'values other than the three short strings',
            'ordinals beyond 2**128 (suffix overflow)', 'LMDB itself (the symbolic run uses the stub; replays and audits use the real library)', 'store reopen (C23)']
 STUBS = ['FakeLMDB (vf/stubs/fakelmdb.py) in the symbolic run only']
 ASSUMPTIONS = ['keys are non-empty and below LMDB\'s key size limit']
@@ -46,7 +46,7 @@ def partitions(tier):
     for kind in KINDS:
         for pn in PAIRS:
             for first in ADDERS[kind]:
-                ps.append(dict(name='%s-%s-first-%s' % (kind, pn, first), kind=kind, pair=pn, first=first, nops=b['nops']))
+                ps.append(dict(name='%s-%s-first-%s' % (kind, pn, first), kind=kind, pair=pn, first=first, nops=b['nops'], free_first=b.get('free_first', False)))
     return ps
 
 
@@ -173,8 +173,8 @@ def harness(sym, part):
         for i in range(part['nops']):
             op = part['first'] if i == 0 else sym.choice('op%d' % i, OPS[kind])
             # the first operation goes to the first key with the first value (the pair list holds both orders where order matters)
-            key = keys[sym.cint('key%d' % i, 0, 1)] if i else keys[0]
-            v = VALS[sym.cint('val%d' % i, 0, 1)] if i else VALS[0]
+            key = keys[sym.cint('key%d' % i, 0, 1)] if (i or part.get('free_first')) else keys[0]
+            v = VALS[sym.cint('val%d' % i, 0, 1)] if (i or part.get('free_first')) else VALS[0]
             hist.append((op, key, v))
 
             def step():
